@@ -753,7 +753,9 @@ func callReaches(a *Analyzer, in ssa.Instruction, recvType, method string) bool 
 func runShutdown(a *Analyzer, r *Results) {
 	// Z1/Z2: loops
 	for _, id := range []string{"(*leanhelix.WorkerLoop).Run", idMainRun} {
-		fn := a.P.Func(id)
+		lb := a.loopBodyOf(id)
+		fn := lb.body
+		isWorker := id == "(*leanhelix.WorkerLoop).Run"
 		nSel := 0
 		for _, b := range fn.Blocks {
 			for _, in := range b.Instrs {
@@ -784,9 +786,15 @@ func runShutdown(a *Analyzer, r *Results) {
 				}
 				li := a.Loops(fn)
 				l := li.Innermost(sel.Block())
-				leaves := l == nil || leavesLoop(armBlk, l, false) || leavesLoop(armBlk, l, true) // directly (return / break), or through the flag the loop condition tests
+				leaves := false
+				if lb.call != nil {
+					// the select lives in the loop's step method: the arm hands back the value on which the caller's loop ends
+					leaves = (l == nil || leavesLoop(armBlk, l, false)) && returnsOnly(armBlk, lb.exitVal)
+				} else {
+					leaves = l == nil || leavesLoop(armBlk, l, false) || leavesLoop(armBlk, l, true) // directly (return / break), or through the flag the loop condition tests
+				}
 				r.Check("Z1.exit", props("C16"), "the ctx.Done arm leaves the event loop", shortName(fn), a.P.InstrPos(in), leaves, "the ctx.Done arm continues the loop", "P")
-				if fn.Name() == "Run" {
+				if isWorker {
 					// Z2: on the way out the current term is disposed -> ElectionScheduler.Stop
 					okStop := false
 					seenB := map[*ssa.BasicBlock]bool{}
@@ -800,8 +808,8 @@ func runShutdown(a *Analyzer, r *Results) {
 							if callReaches(a, i2, "interfaces.ElectionScheduler", "Stop") {
 								return true
 							}
-							if _, isRet := i2.(*ssa.Return); isRet {
-								return false
+							if ret, isRet := i2.(*ssa.Return); isRet {
+								return lb.stepContinues(ret) // the step method says "go on": the loop is not left
 							}
 							if _, isPanic := i2.(*ssa.Panic); isPanic {
 								return true // does not return normally (e.g. the synthetic "select matched no case")
